@@ -164,6 +164,56 @@ def handleNetif (j : Json) : R Json := do
     ("model", jObj [("mac", Json.str (String.ofList o.mac)), ("bcast", jOpt jNat o.bcast)]),
     ("spec", jObj [("mac", Json.str (String.ofList specMac)), ("bcast", jOpt jNat specB)])]
 
+/-- the other platform-conditional branches of the front end: model value and documented value -/
+def handleFront (j : Json) : R Json := do
+  let fn ← strF j "fn"
+  let windows ← boolF j "windows"
+  let posix ← boolF j "posix"
+  if fn == "ppid" then
+    let cached ← optF asNat j "cached"
+    let native ← natF j "native"
+    let r := frontPpid posix cached native
+    return jObj [("model", jObj [("ret", jNat r.1), ("cache", jOpt jNat r.2)]),
+                 ("spec", jObj [("ret", jNat (Spec.ppidExpected posix cached native))])]
+  else if fn == "name" then
+    let cached ← optF asStr j "cached"
+    let native ← strF j "native"
+    let argv ← optF (asList asStr) j "argv"
+    let cmd : CmdlineRes := match argv with | some a => .ok a | none => .swallowed
+    return jObj [("model", jObj [("ret", Json.str (frontName windows posix cached native cmd))]),
+                 ("spec", jObj [("ret", Json.str (Spec.nameExpected windows posix cached native argv))])]
+  else if fn == "username" then
+    let uid ← natF j "uid"
+    let pw ← optF asStr j "pw"
+    let native ← strF j "native"
+    return jObj [("model", jObj [("ret", Json.str (frontUsername posix uid pw native))]),
+                 ("spec", jObj [("ret", Json.str (Spec.usernameExpected posix uid pw native))])]
+  else if fn == "pid_exists" then
+    let pid ← intF j "pid"
+    let pids ← listF asNat j "pids"
+    let native ← boolF j "native"
+    return jObj [("model", jObj [("ret", Json.bool (frontPidExists posix pid pids native))]),
+                 ("spec", jObj [("ret", Json.bool (Spec.pidExistsExpected posix pid pids native))])]
+  else if fn == "affinity" then
+    let ncpu ← natF j "ncpu"
+    let cpus ← listF asNat j "cpus"
+    let r := frontAffinityArg false ncpu cpus
+    let want := if cpus.isEmpty then List.range ncpu else (List.range 1024).filter (cpus.contains ·)
+    return jObj [("model", jObj [("ret", jList jNat ((List.range 1024).filter (r.contains ·)))]),
+                 ("spec", jObj [("ret", jList jNat want)])]
+  else if fn == "disk" then
+    let perdisk ← boolF j "perdisk"
+    let rows ← listF (asList asNat) j "rows"
+    let kw := frontDiskKwargs false perdisk
+    let width := (rows.head?.map List.length).getD 0
+    let specTotal := (List.range width).map fun i => (rows.map fun r => r.getD i 0).foldl (· + ·) 0
+    return jObj [("model", jObj [("kwargs", jList (fun q => Json.str q.1) kw), ("cache", Json.str (frontDiskCacheName perdisk)),
+                                 ("total", jList jNat (frontDiskTotal rows))]),
+                 ("spec", jObj [("kwargs", jList Json.str []),
+                                ("cache", Json.str (if perdisk then "psutil.disk_io_counters.perdisk" else "psutil.disk_io_counters")),
+                                ("total", jList jNat specTotal)])]
+  else .error s!"unknown front function {fn}"
+
 def handleApi (j : Json) : R Json := do
   let p ← strF j "plat" >>= parsePlat
   return jObj [
@@ -178,6 +228,7 @@ def handle (_ : Unit) (j : Json) : R (Unit × Json) := do
     else if op == "record" then handleRecord j
     else if op == "netif" then handleNetif j
     else if op == "api" then handleApi j
+    else if op == "front" then handleFront j
     else .error s!"unknown op {op}")
   return ((), r)
 
